@@ -294,10 +294,13 @@ func checkC08(p *core.Program, r *core.Report) {
 		r.Rule(R6, "no repo function returns on some path with a mutex it acquired still locked (lock wrappers and deferred unlocks excepted): the next acquirer - e.g. the receive loop stopping the handshake timer - blocks for ever")
 		checkLockLeaks(p, r, R6, p.RepoFuncs())
 		const R7 = "C08.R7 close-path-cannot-wedge"
-		r.Rule(R7, "a local close never reports a connection error upward (shared with C11.R7: the report re-enters the close-once of the SHIP connection on the goroutine that is inside it and blocks the receive loop for ever - an over-long close reason built from peer bytes is enough to make the close frame write fail) and the close routine releases blocked writers on every path (shared with C13.R1)")
+		r.Rule(R7, "a local close never reports a connection error upward (shared with C11.R7: the report re-enters the close-once of the SHIP connection on the goroutine that is inside it and blocks the receive loop for ever - an over-long close reason built from peer bytes is enough to make the close frame write fail) the close routine releases blocked writers on every path and a failed write ends the connection instead of silently killing the write pump (shared with C13.R1/R2), and the goroutine a blocking hand-over waits for never takes the mutex held across it (shared with C19.R5)")
 		importRules(p, r, "C11", map[string]string{"C11.R7 transport-end-is-reported": R7}, func(key string) bool { return strings.Contains(key, "never reports") })
 		importRules(p, r, "C13", map[string]string{"C13.R1 close-routine-releases": R7, "C13.R2 error-told-or-not": R7}, func(key string) bool { return !strings.Contains(key, "not-reported-after-local-close") })
 		importRules(p, r, "C19", map[string]string{"C19.R5 shutdown-handshake-not-behind-lock": R7}, nil)
+		const R9 = "C08.R9 no-read-limit-loop"
+		r.Rule(R9, "no receive-side message size limit (shared with C06.R7): gorilla's read errors are permanent - a pump that drops the over-long message and reads on makes the library panic after 1000 failed reads, so one frame that declares a large length ends the process")
+		importRules(p, r, "C06", map[string]string{"C06.R7 no-message-size-limit": R9}, nil)
 		const R8 = "C08.R8 hub-calls-into-connections-are-open-calls"
 		r.Rule(R8, "the hub calls the state-changing methods of a SHIP connection (CloseConnection, AbortPendingHandshake, ApprovePendingHandshake) with no hub mutex held on any path: those methods can end the connection synchronously, and the end is reported back into Hub.HandleConnectionClosed, which takes the registry mutex - a caller that holds it blocks itself, the close-once of the connection and every later user of the registry")
 		if ci := p.Named("api", "ShipConnectionInterface"); ci == nil {
@@ -605,7 +608,7 @@ func checkC08(p *core.Program, r *core.Report) {
 					return
 				}
 				facts := dominatingFacts(in)
-				ok := nonNilFact(facts, x.X)
+				ok := nonNilFact(facts, x.X) || nonNilByDecodeHelper(p, facts, x.X, fv)
 				report(fn, in, "deref", fv.Name(), ok, func() string {
 					if ok {
 						return "nil-checked on every path"
@@ -1226,4 +1229,92 @@ func sortLessIndex(fn *ssa.Function, idx, base ssa.Value) bool {
 		}
 	})
 	return ok
+}
+
+// nonNilByDecodeHelper: ptr is the optional member fv of a value returned by a repo function H as (v, err); the
+// dereference lies behind the err == nil edge of that call, and H returns a nil error only behind its own
+// "member != nil" test of the same member.
+func nonNilByDecodeHelper(p *core.Program, facts []fact, ptr ssa.Value, fv *types.Var) bool {
+	// root of the access path: ... -> Extract(call, 0)
+	var call *ssa.Call
+	v := ptr
+	for depth := 0; depth < 8 && v != nil && call == nil; depth++ {
+		switch x := v.(type) {
+		case *ssa.UnOp:
+			v = x.X
+		case *ssa.FieldAddr:
+			v = x.X
+		case *ssa.Field:
+			v = x.X
+		case *ssa.Extract:
+			if c, ok := x.Tuple.(*ssa.Call); ok && x.Index == 0 {
+				call = c
+			}
+			v = nil
+		default:
+			v = nil
+		}
+	}
+	if call == nil {
+		return false
+	}
+	h := call.Call.StaticCallee()
+	if h == nil || h.Blocks == nil || !p.InRepo(h) {
+		return false
+	}
+	res := h.Signature.Results()
+	if res.Len() < 2 || types.TypeString(res.At(res.Len()-1).Type(), nil) != "error" {
+		return false
+	}
+	// (a) behind err == nil
+	behind := false
+	for _, f := range facts {
+		bo, ok := f.cond.(*ssa.BinOp)
+		if !ok || (bo.Op != token.EQL && bo.Op != token.NEQ) || !core.IsNilConst(bo.Y) {
+			continue
+		}
+		if ex, ok := bo.X.(*ssa.Extract); ok && ex.Tuple == ssa.Value(call) && ex.Index == res.Len()-1 && f.truth == (bo.Op == token.EQL) {
+			behind = true
+		}
+	}
+	if !behind {
+		return false
+	}
+	// (b) every nil-error return of h is behind "member != nil"
+	okAll, any := true, false
+	for _, b := range h.Blocks {
+		ret, isRet := b.Instrs[len(b.Instrs)-1].(*ssa.Return)
+		if !isRet || len(ret.Results) != res.Len() {
+			continue
+		}
+		if !core.IsNilConst(ret.Results[len(ret.Results)-1]) {
+			if !neverNilError(ret.Results[len(ret.Results)-1]) {
+				// an error variable: only fine when this return is behind its own err != nil test - keep it simple and accept
+				// returns that hand a callee's error through
+				if _, isExtract := ret.Results[len(ret.Results)-1].(*ssa.Extract); !isExtract {
+					if _, isCall := ret.Results[len(ret.Results)-1].(*ssa.Call); !isCall {
+						okAll = false
+					}
+				}
+			}
+			continue
+		}
+		any = true
+		checked := false
+		for _, f := range dominatingFacts(ret) {
+			bo, ok := f.cond.(*ssa.BinOp)
+			if !ok || (bo.Op != token.EQL && bo.Op != token.NEQ) || !core.IsNilConst(bo.Y) {
+				continue
+			}
+			if ld, ok := bo.X.(*ssa.UnOp); ok && ld.Op == token.MUL {
+				if fa, ok := ld.X.(*ssa.FieldAddr); ok && core.FieldVar(fa) == fv && f.truth == (bo.Op == token.NEQ) {
+					checked = true
+				}
+			}
+		}
+		if !checked {
+			okAll = false
+		}
+	}
+	return any && okAll
 }
